@@ -22,7 +22,7 @@ RULE = (
     "host shapes, working and failing log sinks) run in one long-lived interpreter; every answer compared with a fresh process given only that query."
 )
 TRUSTED = ["T0 state inventory scan (harness/gen_tables.py: scan_state)", "importlib.import_module is deterministic per module name (sys.modules)", "CPython's functools.lru_cache (validated against the model)", "stdlib caches (re, fnmatch) are transparent memoisations of pure functions"]
-ASSUMES = ["referenced files (python scripts, config layers) do not change during a history; HOME, process cwd and environment are inputs, not history", "the vendored parser keeps no state between parse() calls (its module defines no mutated global: part of the T0 scan)"]
+ASSUMES = ["files are inputs: when a history changes them (fs_histories) the reference is a fresh process in the same file state; HOME, process cwd and environment are inputs, not history", "the vendored parser keeps no state between parse() calls (its module defines no mutated global: part of the T0 scan)"]
 
 HIST = os.path.join(os.path.dirname(os.path.dirname(os.path.abspath(__file__))), "history_proc.py")
 CONFIGS = ["", "allow frob\ndeny rm -rf *\nask git push *\nallow-redirect /tmp/ok\n", "deny find * -delete\nallow python3 *\ndeny curl *\nalias g git\n"]
@@ -132,6 +132,89 @@ def gen_pool(r, home):
     return pool
 
 
+SAFE_A = "import json\nx = json.dumps([1, 2])\nprint(x)\n"
+# same length as SAFE_A, not approvable
+UNSAFE_SAME_LEN = "import json\nx = eval('2+2')       \nprint(x)\n"
+assert len(SAFE_A) == len(UNSAFE_SAME_LEN)
+
+
+def fs_histories(ctx, r, stats, vios, samples):
+    """histories in which the *files* change between queries (script replaced keeping size and mtime, a sibling module
+    appearing next to it, a config layer rewritten): each answer must be the answer of a fresh process started in the same file state"""
+    n = ctx.scale(24, 400) * (2 if ctx.broken else 1)
+
+    def one(i):
+        rr = rng("c18-fs-%d" % i)
+        out = []
+        with H.Scratch() as s:
+            home = s.home
+            os.makedirs(os.path.join(home, ".dippy"), exist_ok=True)
+            d = os.path.join(s.root, "work")
+            os.makedirs(d, exist_ok=True)
+            script, other = os.path.join(d, "s.py"), os.path.join(d, "t.py")
+            open(script, "w").write(SAFE_A)
+            open(other, "w").write("import os\nos.system('id')\n")
+            open(os.path.join(d, ".dippy"), "w").write("allow frob\n")
+            queries = [
+                {"kind": "analyze", "cmd": "python3 " + script, "config": "", "cwd": d},
+                {"kind": "analyze", "cmd": "python3 s.py", "config": "", "cwd": d},
+                {"kind": "analyze", "cmd": "python3 -B s.py x y", "config": "", "cwd": d},
+                {"kind": "analyze", "cmd": "uv run " + script, "config": "", "cwd": d},
+                {"kind": "analyze", "cmd": "echo $(python3 " + script + ")", "config": "", "cwd": d},
+                {"kind": "main", "stdin": json.dumps({"tool_name": "Bash", "tool_input": {"command": "frob x"}, "cwd": d})},
+                {"kind": "main", "stdin": json.dumps({"tool_name": "Bash", "tool_input": {"command": "python3 " + script}, "cwd": d})},
+                {"kind": "main", "stdin": json.dumps({"command": "frob x", "cwd": d})},
+            ]
+            changes = [
+                {"kind": "fs", "op": "write", "path": script, "content": UNSAFE_SAME_LEN, "keep_stamp": True},
+                {"kind": "fs", "op": "write", "path": script, "content": SAFE_A, "keep_stamp": True},
+                {"kind": "fs", "op": "write", "path": script, "content": "import os\nos.remove('x')\n"},
+                {"kind": "fs", "op": "write", "path": script, "content": SAFE_A},
+                {"kind": "fs", "op": "write", "path": os.path.join(d, "json.py"), "content": "import os\n"},
+                {"kind": "fs", "op": "remove", "path": os.path.join(d, "json.py")},
+                {"kind": "fs", "op": "mkdir", "path": os.path.join(d, "json")},
+                {"kind": "fs", "op": "remove", "path": os.path.join(d, "json")},
+                {"kind": "fs", "op": "symlink", "path": script, "target": other},
+                {"kind": "fs", "op": "write", "path": os.path.join(d, ".dippy"), "content": "deny frob \"no\"\n"},
+                {"kind": "fs", "op": "write", "path": os.path.join(d, ".dippy"), "content": "allow frob\n"},
+                {"kind": "fs", "op": "remove", "path": os.path.join(d, ".dippy")},
+                {"kind": "fs", "op": "write", "path": os.path.join(home, ".dippy", "config"), "content": "ask frob \"user says ask\"\n"},
+                {"kind": "fs", "op": "remove", "path": os.path.join(home, ".dippy", "config")},
+            ]
+            p = start_proc(home)
+            trace = []
+            try:
+                for _ in range(rr.randint(10, 18)):
+                    if rr.chance(0.4):
+                        c = rr.pick(changes)
+                        ask_proc(p, c)
+                        trace.append(c)
+                        continue
+                    q = rr.pick(queries)
+                    a = ask_proc(p, q)
+                    want = run_queries(home, [q])[0]
+                    out.append((q, list(trace), a, want))
+                    trace.append(q)
+            finally:
+                try:
+                    p.stdin.close()
+                    p.wait(timeout=10)
+                except Exception:  # noqa: BLE001
+                    p.kill()
+        return out
+
+    with ThreadPoolExecutor(12) as ex:
+        for res in ex.map(one, range(n)):
+            for q, trace, a, want in res:
+                stats["evaluations"] += 1
+                stats["fs_history_queries"] += 1
+                if a != want:
+                    if len(vios) < 6:
+                        vios.append({"input": {"query": q, "history_with_file_changes": trace[-12:]}, "observed": {"after_history": a, "fresh_process_same_files": want}, "required": "the answer equals the answer of a fresh process in the same file state (files are inputs, history is not)", "oracle": "fresh-vs-history(files change)"})
+                elif len(samples) < 4 and any(x.get("kind") == "fs" for x in trace):
+                    samples.append({"query": q, "answer": a, "file_changes_before": sum(1 for x in trace if x.get("kind") == "fs")})
+
+
 def search(ctx):
     r = rng("c18-search")
     stats = collections.Counter()
@@ -226,6 +309,8 @@ def search(ctx):
                         vios.append({"input": {"query": q, "explicit_mode_env": mode, "history": qs[:i][-40:], "history_len": i}, "observed": {"after_history": a, "fresh_process": want}, "required": "the answer after any history equals the answer of a fresh process", "oracle": "fresh-vs-history"})
                 elif len(samples) < 3 and i > 60:
                     samples.append({"query": q, "answer": a, "position_in_history": i})
+    if len(vios) < 6:
+        fs_histories(ctx, r, stats, vios, samples)
     return {"violations": vios, "evaluations": stats["evaluations"], "distinct_nontrivial": len([k for k in fresh_keys if fresh_keys[k] is not None]), "stats": dict(stats), "samples": samples, "oracle": "same query: fresh process vs after a history in one interpreter (action, reason, stdout)"}
 
 
